@@ -113,6 +113,12 @@ def decide(run, cases, nv, label, explore_small=0):
         if "log" not in c.obs:
             key = "compile_error" if "compile_error" in c.obs else "runaway"
             skipped[key] += 1
+            if key == "compile_error" and not c.obs.get("is_syntax_error") and \
+                    c.obs.get("exc_class") not in ("HySyntaxError", "HyMacroExpansionError", "HyLanguageError",
+                                                   "HyCompileError", "HyRequireError"):
+                run.violation(c.text + " | compile", f"compiling {c.text} raised {c.obs['compile_error']} (not a "
+                              "user-facing Hy error)", {"text": c.text, "script": c.script, "fault": c.fault,
+                                                        "supp": c.supp})
             if key == "compile_error":
                 run.cov.setdefault("compile_error_samples", [])
                 if len(run.cov["compile_error_samples"]) < 5:
@@ -293,6 +299,14 @@ def c02_operand(rng, shape, truth, script, nxt):
         return T("if", 0, [T("lit", 0, (), v=["bool", 1, []]),
                            T("do", 0, [T("setv", 0, [T("var", 3), T("eff", k1)]), T("eff", k2)]),
                            T("lit", 0, (), v=["int", 2, []])])
+    if shape == "T":   # statement operand whose value is a plain and/or form of either operator
+        k1, k2, k3 = nxt(), nxt(), nxt()
+        script[k1] = [rng.choice(TRUTHY + FALSY_V)]
+        inner = rng.choice(["and", "or"])
+        # (and X v) has v's truthiness when X is truthy; (or X v) when X is falsy
+        script[k2] = [rng.choice(TRUTHY if inner == "and" else FALSY_V)]
+        script[k3] = [v]
+        return T("do", 0, [T("setv", 0, [T("var", 1), T("eff", k1)]), T(inner, 0, [T("eff", k2), T("eff", k3)])])
     if shape == "N":   # nested and/or whose value has the wanted truthiness
         k1, k2 = nxt(), nxt()
         script[k1] = [rng.choice(TRUTHY)]
@@ -308,19 +322,22 @@ def main_c02(run):
     nv = 3
     cases = []
     nmax = 4 if q else 5
-    shapes = "PESNI"
+    shapes = "PESNIT"
     wrappers = ["plain", "setv", "if", "arg"]
     n_prog = 0
     pyops_checked = 0
     import hy.pyops as pyops
     from ..hycore import topy
     for op in ("and", "or"):
-        for n in range(0, nmax + 1):
-            combos = list(itertools.product(shapes, repeat=n))
+        for n in range(0, nmax + 2):
+            # arity nmax+1: only plain / statement operands (every position of a statement among plain ones)
+            combos = list(itertools.product(shapes if n <= nmax else "PST", repeat=n))
             for sh in combos:
                 truths = list(itertools.product([True, False], repeat=n))
-                if n >= 4 and q:
-                    truths = rng.sample(truths, 3)
+                if n > nmax:
+                    truths = rng.sample(truths, 2 if q else 8)
+                elif n >= 4 and q:
+                    truths = rng.sample(truths, 2)
                 elif n == 3 and q:
                     truths = rng.sample(truths, 4)
                 for tr in truths:
